@@ -75,7 +75,7 @@ theorem run_approx : ∀ (n : Nat) (t : ITask) (st : St), Approx (run n t st) (r
         | pure e => exact Or.inr rfl
         | call f args =>
           simp only [run]
-          refine bind_approx _ (fun vs => bind_approx _ (fun m => bind_approx _ (fun sc => ?_)))
+          refine bind_approx _ (fun fv => bind_approx _ (fun vs => bind_approx _ (fun m => bind_approx _ (fun sc => ?_))))
           exact mapSt_approx (ih _ _)
       | sub ds body => simp only [run]; exact ih _ _
     | apply ds body =>
@@ -165,7 +165,7 @@ theorem doc_approx : ∀ (n : Nat) (t : DTask) (loc : Env) (st : DSt),
       | pure e => exact Or.inr rfl
       | call f args =>
         simp only [doc]
-        exact bind_approx _ (fun vs => bind_approx _ (fun m => bind_approx _ (fun sc => ih _ _ _)))
+        exact bind_approx _ (fun fv => bind_approx _ (fun vs => bind_approx _ (fun m => bind_approx _ (fun sc => ih _ _ _))))
     | dirs ds t =>
       cases ds with
       | nil =>
